@@ -173,7 +173,7 @@ class VCSAPI:
         try:
             self('add_path', path=path)
         except sp.CalledProcessError as ex:
-            if "already tracked!" in str(ex):
+            if self.name == 'hg' and b"already tracked!" in (ex.stderr or b""):
                 # mercurial
                 return
             else:
